@@ -2142,7 +2142,7 @@ def run_plugins(scope: str, tape: Tape, stack: Stack, cache: dict) -> list:
     result = []
     if scope not in tape.plugins:
         return result
-    for plugin in tape.plugins[scope]:
+    for plugin in [*tape.plugins[scope]]:
         result.append(plugin(tape, stack, cache))
     return result
 
